@@ -2,3 +2,4 @@
 pub mod util;
 pub mod sys;
 pub mod caobs;
+pub mod caops;
